@@ -59,6 +59,10 @@ def gen_convex(r):
     if r.random() < 0.3:
         vcs.append("v%d" % (len(vs) + 1))
         ops.append({"op": "sym", "name": vcs[-1], "kind": "variable", "grid": "control"})
+    zs = []
+    if cls == "DirectCollocation" and r.random() < 0.4:
+        zs.append("z1")  # index-1 DAE: z is a linear output of x and u
+        ops.append({"op": "sym", "name": "z1", "kind": "algebraic"})
     for x in xs:
         e = ["*", ["c", G.rnum(r, -1, 1)], ["s", G.pick(r, xs)]]
         e = ["+", e, ["*", ["c", G.rnum(r)], ["s", G.pick(r, us)]]]
@@ -70,14 +74,18 @@ def gen_convex(r):
             e = ["+", e, ["*", ["c", G.rnum(r, -1, 1)], ["s", vs[0]]]]
         if vcs and r.random() < 0.7:
             e = ["+", e, ["*", ["c", G.rnum(r, -1, 1)], ["s", vcs[0]]]]
+        if zs and r.random() < 0.8:
+            e = ["+", e, ["*", ["c", G.rnum(r, -1, 1)], ["s", zs[0]]]]
         ops.append({"op": "set_der", "state": x, "expr": e})
+    for z in zs:
+        ops.append({"op": "add_alg", "expr": ["-", ["s", z], ["+", ["*", ["c", G.rnum(r, -1, 1)], ["s", xs[0]]], ["*", ["c", G.rnum(r, -1, 1)], ["s", us[0]]]]]})
     ops.append({"op": "subject_to", "expr": ["==", ["at_t0", ["s", xs[0]]], ["s", ps[0]]]})
     for x in xs[1:]:
         ops.append({"op": "subject_to", "expr": ["==", ["at_t0", ["s", x]], ["c", G.rnum(r)]]})
     for u in us:
         ops.append({"op": "subject_to", "expr": ["box", ["c", -5.0], ["s", u], ["c", 5.0]]})
     quad = None
-    for sname in xs + us + vcs:
+    for sname in xs + us + vcs + zs:
         t = ["*", ["c", round(r.uniform(0.5, 2.0), 2)], ["sq", ["-", ["s", sname], ["c", G.rnum(r, -1, 1)]]]]
         quad = t if quad is None else ["+", quad, t]
     ops.append({"op": "add_objective", "expr": ["int", quad]})
@@ -90,7 +98,11 @@ def gen_convex(r):
         m["scheme"] = G.pick(r, ["radau", "legendre"])
     else:
         m["intg"] = G.pick(r, ["rk", "expl_euler"])
-    if r.random() < 0.3:
+    if zs:
+        # interior collocation points and a uniform grid, so that "the guess of interval k" can be written as a
+        # piecewise constant function of time on the imperative side
+        m["scheme"] = "legendre"
+    elif r.random() < 0.3:
         m["grid"] = {"cls": "Geometric", "growth": 2, "local": r.random() < 0.5}
     ops.append({"op": "method", "m": m})
     mode = G.pick(r, ["map", "map", "conv"])
@@ -99,7 +111,7 @@ def gen_convex(r):
         ops.append({"op": "set_value", "p": p, "v": G.rnum(r)})
     for p in pcs:
         ops.append({"op": "set_value", "p": p, "v": {"as": "np", "v": [[G.rnum(r) for _ in range(N)]]}})
-    info = {"xs": xs, "us": us, "ps": ps, "pcs": pcs, "vs": vs, "vcs": vcs, "N": N, "cls": cls, "mode": mode}
+    info = {"xs": xs, "us": us, "ps": ps, "pcs": pcs, "vs": vs, "vcs": vcs, "zs": zs, "N": N, "cls": cls, "mode": mode}
     return ops, info
 
 
@@ -121,6 +133,8 @@ def gen_to_function(r, info):
             cands += [["sample_x", x] for x in info["xs"]]
     r.shuffle(cands)
     args = cands[: r.randint(1, len(cands))]
+    if info.get("zs") and r.random() < 0.7:
+        args = [a for a in args] + [["z", "*"]]  # DirectCollocation's literal "z": guesses of the algebraic variables
     res = []
     for x in info["xs"]:
         if r.random() < 0.7:
@@ -134,6 +148,8 @@ def gen_to_function(r, info):
             res.append(["sample", u, "control"])
     for v in info["vs"]:
         res.append(["value", v])
+    for z in info.get("zs", []):
+        res.append(["sample", z, "integrator_roots"])
     if not res:
         res.append(["sample", info["xs"][0], "control"])
     if r.random() < 0.5:
@@ -157,6 +173,8 @@ def gen_val(r, a, info):
         return [[G.rnum(r) for _ in range(N)]]
     if k == "sample_uall":
         return [[G.rnum(r) for _ in range(N)] for _ in info["us"]]
+    if k == "z":
+        return [[G.rnum(r) for _ in range(N + 1)] for _ in info["zs"]]
     if k == "sample_xall":
         return [[G.rnum(r) for _ in range(N + 1)] for _ in info["xs"]]
     return [[G.rnum(r) for _ in range(N + 1)]]
@@ -229,6 +247,8 @@ class World19:
     def arg_expr(self, act, a):
         o = act.ocp
         k, n = a
+        if k == "z":
+            return "z"
         if k == "sample_xall":
             return o.sample(o.x, grid="control")[1]
         if k == "sample_uall":
@@ -292,6 +312,12 @@ class World19:
                 rep.apply({"op": "set_value", "p": n, "v": {"as": "np", "v": v}})
             elif k == "value_v":
                 rep.apply({"op": "set_initial", "x": n, "g": ["num", v]})
+            elif k == "z":
+                # column k of the "z" argument is the guess of the algebraic variables on control interval k
+                N = spec.method["N"]
+                t0, T = float(spec.t0[1]), float(spec.T[1])
+                for i, z in enumerate(spec.names("algebraic")):
+                    rep.apply({"op": "set_initial", "x": z, "g": ["expr", ["pw", [float(x) for x in v[i][:N]], t0, T / N]]})
             elif k == "sample_xall":  # row i of the whole-vector argument is the guess of state i
                 for i, x in enumerate(spec.names("state")):
                     rep.apply({"op": "set_initial", "x": x, "g": ["arr", [v[i]], "np"]})
